@@ -458,6 +458,18 @@ func ruleF8size(c *Ctx) {
 		}{{0x66, "Require66h"}, {0x67, "Require67h"}} {
 			preds := prefixGuardPredicates(g, px.b)
 			if preds == nil {
+				// the prefixes may be appended by a helper of the package the emitter calls
+				for _, h := range unitOf(g, 2) {
+					if h == g {
+						continue
+					}
+					if hp := prefixGuardPredicates(h, px.b); hp != nil {
+						preds = hp
+						break
+					}
+				}
+			}
+			if preds == nil {
 				c.fail("F8s", fmt.Sprintf("%s|%02X prefix guard", em, px.b), c.L.Pos(g.Pos()), fmt.Sprintf("emitter never appends the %02X prefix", px.b))
 				continue
 			}
@@ -490,9 +502,11 @@ func ruleF8size(c *Ctx) {
 	emitted := map[string]bool{}
 	for _, em := range []string{"handleMOV", "generateArithmeticCode", "generateLogicalCode", "handleNOT", "handleIMUL", "handlePUSH", "handlePOP"} {
 		if g := c.L.SSAFunc("internal/codegen", em); g != nil {
-			for _, b := range []byte{0x66, 0x67} {
-				for _, blkPreds := range prefixGuardLeafPredicates(g, b) {
-					emitted[blkPreds] = true
+			for _, h := range unitOf(g, 2) {
+				for _, b := range []byte{0x66, 0x67} {
+					for _, blkPreds := range prefixGuardLeafPredicates(h, b) {
+						emitted[blkPreds] = true
+					}
 				}
 			}
 		}
